@@ -55,6 +55,10 @@ class Gen:
     # ---------------------------------------------------------------- names
     def ident(self, maxlen=10):
         r = self.r
+        if maxlen >= 7 and r.random() < 0.02:
+            # words that some number classes accept although float() does not (Decimal: NaN with a payload,
+            # signalling NaN), or that merely look like numbers
+            return r.choice(["Nan4", "sNaN", "snan1", "NaN123", "Infinity1", "INF0", "e5", "E10", "x1e5", "n2"])
         n = r.randrange(1, maxlen + 1)
         s = r.choice(LETTERS) + "".join(r.choice(LETTERS + DIGITS + "_") for _ in range(n - 1))
         if s.endswith("_"):
